@@ -16,8 +16,7 @@ META = {
             "counter_len < block / little endian / suffix; distinct by (cipher, layout, initial class, call pattern class, limit relation)",
     "assumptions": ["E_K is a permutation: a duplicated keystream block means a repeated counter block",
                     "a limit that is enforced earlier than necessary (e.g. ChaCha20's last block) is conservative, not a violation"],
-    "unexplored": ["CTR limits for counter_len >= 4 (>= 64 GiB of data) and the inner 32-bit counter of GCM (2^39-256 bits): "
-                   "unreachable by generated data without a source hook",
+    "unexplored": ["CTR byte-count limits for counter_len >= 5 (>= 16 TiB of data); counter_len 4 is reached for AES only (64 GiB, big_limit)",
                    "Salsa20's 2^70-byte limit"],
 }
 
@@ -353,6 +352,99 @@ def run_hpke(case, rec):
     rec.sample({"aead": case["aead"], "n": case["n"], "near_max": case["near_max"], "refused": refused})
 
 
+# ------------------------------------------------------------------ 2^32-block limits reached through the public API (64 GiB of data)
+BIG_CHUNK = 64 << 20
+
+
+def cases_big(tier, shard, nshards):
+    """GCM (12-byte nonce: 32-bit inner counter starting at J0+1, SP 800-38D limit 2^39-256 bits = 2^36-32 bytes) and plain CTR with a
+    4-byte counter (limit 2^36 bytes). `tail` are the call sizes after the object has been brought to limit-4096 bytes."""
+    # (the encrypt case with tail [4096, 32, 16] is the committed replay replays/C11/gcm-limit-2-36-bytes.json and runs in every tier)
+    out = [{"mode": "GCM", "dir": "decrypt", "tail": [4096, 1, 32], "little": False, "initial": 0}]
+    if tier != "quick":
+        out += [{"mode": "GCM", "dir": "encrypt", "tail": [4097], "little": False, "initial": 0},
+                {"mode": "CTR", "dir": "encrypt", "tail": [4096, 1, 16], "little": False, "initial": 0xFFFFFF00},
+                {"mode": "CTR", "dir": "decrypt", "tail": [4097, 1], "little": True, "initial": 5}]
+    return [c for k, c in enumerate(out) if k % nshards == shard]
+
+
+def run_big(case, rec):
+    from Crypto.Cipher import AES
+    from Crypto.Util import Counter
+    from ..refs import aes as raes
+    key = bytes(range(16, 32))
+    nonce = bytes(range(100, 112))
+    mode = case["mode"]
+    if mode == "GCM":
+        obj = AES.new(key, AES.MODE_GCM, nonce=nonce)
+        limit = (1 << 36) - 32
+        first = 2            # counter value (low 32 bits) of the first data block: J0 = nonce || 1
+        j0 = nonce + (1).to_bytes(4, "big")
+
+        def block_of(i):
+            return nonce + ((first + i) & 0xFFFFFFFF).to_bytes(4, "big")
+    else:
+        if case["little"]:
+            ctr = Counter.new(32, suffix=nonce, initial_value=case["initial"], little_endian=True)
+            obj = AES.new(key, AES.MODE_CTR, counter=ctr)
+
+            def block_of(i):
+                return ((case["initial"] + i) & 0xFFFFFFFF).to_bytes(4, "little") + nonce
+        else:
+            obj = AES.new(key, AES.MODE_CTR, nonce=nonce, initial_value=case["initial"])
+
+            def block_of(i):
+                return nonce + ((case["initial"] + i) & 0xFFFFFFFF).to_bytes(4, "big")
+        limit = 1 << 36
+        j0 = None
+    meth = obj.decrypt if case["dir"] == "decrypt" else obj.encrypt
+    info = dict(case)
+    zeros = bytes(BIG_CHUNK)
+    out = bytearray(BIG_CHUNK)
+    total = 0
+    target = limit - 4096
+    # bulk phase: nothing is inspected except that no exception is raised below the limit
+    while total < target:
+        n = min(BIG_CHUNK, target - total)
+        kind, r = libcall(lambda: meth(zeros[:n] if n < BIG_CHUNK else zeros, output=(memoryview(out)[:n] if n < BIG_CHUNK else out)),
+                          allowed=(OverflowError, ValueError), bucket="big/%s" % mode)
+        if kind == "exc":
+            raise Violation("big/%s/limit-too-early" % mode, "%s after only %d of %d permitted bytes" % (type(r).__name__, total + n, limit), **info)
+        total += n
+    ej0 = raes.encrypt_block(key, j0) if j0 else None
+    failed = False
+    for n in case["tail"]:
+        kind, r = libcall(meth, bytes(n), allowed=(OverflowError, ValueError), bucket="big/%s" % mode)
+        would = total + n
+        if kind == "ok":
+            data = bytes(r)
+            if would > limit:
+                # data handed out beyond the limit: say whether it exposes the block that masks the tag / repeats block 0
+                first_blk = total // 16
+                blocks = [data[k:k + 16] for k in range((-total) % 16, len(data) - 15, 16)]
+                reuse = ""
+                if ej0 is not None and ej0 in blocks:
+                    reuse = "; the returned key stream contains E_K(J0), the block that masks the tag"
+                if mode == "CTR" and raes.encrypt_block(key, block_of(0)) in blocks:
+                    reuse = "; the key stream of block 0 is returned again"
+                raise Violation("big/%s/limit-not-enforced" % mode, "%d bytes obtained from one object, the limit is %d%s" % (would, limit, reuse), **info)
+            # data below the limit must be the key stream of its position
+            lo, hi = total // 16, (would + 15) // 16
+            ks = b"".join(raes.encrypt_block(key, block_of(i)) for i in range(lo, hi))
+            exp = ks[total - lo * 16: total - lo * 16 + n]
+            if data != exp:
+                raise Violation("big/%s/wrong-keystream-before-limit" % mode, "the %d bytes before the limit are not the key stream of their position" % n, **info)
+            total = would
+        else:
+            if would <= limit and not failed:
+                # (after a refusal the object may or may not have consumed key stream: later refusals are not judged)
+                raise Violation("big/%s/limit-too-early" % mode, "%s at %d of %d permitted bytes" % (type(r).__name__, would, limit), **info)
+            failed = True
+    rec.nt(mode, case["dir"], tuple(case["tail"]), case["little"], failed)
+    rec.event("big-limit:%s:%s:%s" % (mode, case["dir"], "refused-beyond-limit" if failed else "limit-not-crossed"))
+    rec.sample({"mode": mode, "dir": case["dir"], "bytes_processed": total, "limit": limit, "tail": case["tail"], "refused": failed})
+
+
 CHECKS = [
     Check("ctr_layout", run=run_ctr, strategy=strat_ctr, examples=(12000, 200000), shards=(16, 16),
           rule="CTR keystream == integer counter model through reference ECB; no repeated keystream block; counter passes through zero"),
@@ -362,6 +454,9 @@ CHECKS = [
           rule="ChaCha20/XChaCha20 seek + encrypt near the end of the key stream and past it (2^70, huge positions)"),
     Check("ccm_limit", run=run_ccm, cases=cases_ccm, shards=(12, 16), exhaustive=True,
           rule="CCM messages of 2^(8q)-1, 2^(8q), 2^(8q)+1 bytes, declared/undeclared, one call/split"),
+    Check("big_limit", run=run_big, cases=cases_big, shards=(1, 4),
+          rule="AES-GCM (32-bit inner counter) and AES-CTR with a 4-byte counter driven to their 2^32-block limit through the public API (64 GiB): "
+               "limit bytes accepted with the right key stream, the next byte refused, E_K(J0) never handed out"),
     Check("hpke", run=run_hpke, strategy=strat_hpke, examples=(300, 4000), shards=(4, 8),
           rule="HPKE: N seal() calls on identical input give pairwise distinct nonces/ciphertexts; sequence exhaustion refuses"),
 ]
